@@ -4,6 +4,7 @@ reads), runs the macro-time model (`expand`) and the schema models, and prints f
 operation the schema-model outcome `M=` and the specification's answer `S=`.
 -/
 import EnumToolsModel.Spec
+import EnumToolsModel.Macro
 open ET
 
 def hexVal (c : Char) : Nat :=
